@@ -352,7 +352,7 @@ func gen(r *Rng, tier string, emit func(string)) {
 	edges := edgeScalars()
 	scale := 1
 	if thorough {
-		scale = 12
+		scale = 9
 	}
 	// --- secret keys / scalars: validity and public-key derivation
 	for _, v := range edges {
@@ -577,7 +577,7 @@ func gen(r *Rng, tier string, emit func(string)) {
 				copy(s2[32:64], sig[0:32])
 			}
 			mut("", s2, h2, p2)
-			if r.Chance(20) || thorough {
+			if (r.Chance(20) || thorough) && len(p2) == 33 { // p2 is nil when the "other key" is (d+1)*G with d = n-1
 				emit("rawverify " + Hex(p2) + " " + Hex(s2[:64]) + " " + h2)
 			}
 		}
